@@ -338,6 +338,8 @@ class Body:
             return ("fn", norm_name(f["resolved"] or f["path"]))
         if "closure" in op:
             return ("closure", norm_name(op["closure"]), ())
+        if "static" in op:
+            return ("static", norm_name(op["static"]))
         if "promoted" in op:
             pb = self.prog.promoted_body(self, op["promoted"])
             if pb is not None:
@@ -711,6 +713,8 @@ def _show(e):
         return e[1].split("::")[-1]
     if k == "fn":
         return "fn:" + short(e[1])
+    if k == "static":
+        return "static:" + e[1].split("::")[-1]
     if k == "field":
         return "%s.%s" % (_show(e[1]), e[2])
     if k == "vfield":
@@ -770,7 +774,7 @@ def walk(e):
                                         yield from walk(z)
 
 
-_KINDS = {"param", "var", "upvar", "const", "cdef", "fn", "field", "vfield", "call", "bin", "un", "cast", "agg",
+_KINDS = {"static", "param", "var", "upvar", "const", "cdef", "fn", "field", "vfield", "call", "bin", "un", "cast", "agg",
           "closure", "tuple", "array", "phi", "try", "elem", "next", "branch", "discr", "mutated", "index",
           "unknown", "closure_env", "variant", "proj", "repeat", "rec"}
 
